@@ -10,6 +10,8 @@ import SLE.Driver.TruthD
 import SLE.Driver.WatchdogD
 import SLE.Driver.LiftD
 import SLE.Driver.TCD
+import SLE.Driver.EvmD
+import SLE.Driver.IdiomD
 /-! `sle_driver`: reads `family\tpayload\timpl_answer`, prints `model_answer\toracle_verdict`. -/
 open SLE.Driver
 
@@ -32,6 +34,9 @@ def handleLine (tbl : Array (Nat × Nat)) (line : String) : String :=
       | "watchdog" => WatchdogD.handle payload impl
       | "hash" => LiftD.handleHash payload impl
       | "lift" => LiftD.handleLift tbl payload impl
+      | "idiom" => IdiomD.handleIdiom payload impl
+      | "frag" => IdiomD.handleFrag payload impl
+      | "evm" => EvmD.handle payload impl
       | "tc" => TCD.handle tbl payload impl
       | "pipeline" => PipelineD.handle payload impl
       | "orders" => PipelineD.handleOrders payload impl
